@@ -1,5 +1,6 @@
 import QF.Drv.Parse
 import QF.Core.Compare
+import QF.Spec.Render
 /-
 Driver section "hist": replays a frame-history transcript through the spec.
 Every `R` line (the implementation's observation) is compared with what the
@@ -40,6 +41,15 @@ structure GroupPending where
   active : Bool
   deriving Inhabited
 
+structure WritePending where
+  src : Option LFrame      -- none: the source carries an error
+  kind : String
+  hdr : Bool := true
+  cols : List Bytes := []
+  emptyNull : Bool := false
+  wrote : Bool := false
+  deriving Inhabited
+
 structure HState where
   frames : Array (Option (Option LFrame)) := #[]
   pending : Option Pending := none
@@ -47,6 +57,7 @@ structure HState where
   likeO : List (Bytes × Bool × Option (List (Bytes × Bool))) := []
   upperO : List (Bytes × Bytes) := []
   cbZeroFrom : Option Nat := none     -- callbacks of instructions from this index on must not run
+  wr : Option WritePending := none
   deriving Inhabited
 
 def HState.getFrame (s : HState) (fid : Nat) : Option (Option LFrame) :=
@@ -498,7 +509,28 @@ def histLine (s : HState) (toks : Array String) : HState × List Msg :=
       let op := match s.pending with | some p => p.op | none => "?"
       ({ s with pending := none }, [{ cls := "SPEC-MISMATCH", op := op, kind := "accessors", detail := s!"observation not well-formed: {e}" }])
     | .ok (fid, obs) =>
-      if fid == -1 then
+      if fid == -2 then
+        -- the frame read back from what ToCSV / ToJSON wrote
+        match s.wr with
+        | some wp =>
+          let s' := { s with wr := none }
+          let op := if wp.kind == "csv" then "csvroundtrip" else "jsonroundtrip"
+          match wp.src with
+          | none => (s', [])
+          | some f =>
+            let exp : Expect :=
+              if wp.kind == "csv" then
+                if csvRereadOk f wp.cols wp.emptyNull then
+                  match csvReread f wp.cols wp.emptyNull with
+                  | some g => .exact (.ok g) false
+                  | none => .skip "no expectation"
+                else .exact .err false
+              else .exact (.ok (jsonReread f)) false
+            let v := judge exp obs
+            (s', [if v.ok then { cls := "OK", op := op, kind := "", detail := "" }
+                  else { cls := "SPEC-MISMATCH", op := op, kind := v.kind, detail := s!"reading back what was written from {showFrame f}: {v.detail}" }])
+        | none => failL "R" "R -2 without W"
+      else if fid == -1 then
         -- a frame of Grouper.QFrames()
         match obs with
         | .frame g =>
@@ -522,6 +554,65 @@ def histLine (s : HState) (toks : Array String) : HState × List Msg :=
               else if v.known then { cls := "KNOWN-FINDING", op := p.op, kind := v.kind, detail := v.detail }
               else if v.mirror then { cls := "MIRROR-MISMATCH", op := p.op, kind := v.kind, detail := v.detail }
               else { cls := "SPEC-MISMATCH", op := p.op, kind := v.kind, detail := v.detail }])
+  | some "W" =>
+    match runP (do
+        let src ← nat
+        let kind ← next
+        if kind == "csv" then
+          let hdr ← bool01
+          let cols ← parseNames
+          let en ← bool01
+          return (src, ({ src := none, kind := kind, hdr := hdr, cols := cols, emptyNull := en } : WritePending))
+        else return (src, ({ src := none, kind := kind } : WritePending))) toks 1 with
+    | .error e => failL "W" e
+    | .ok (src, wp) =>
+      match s.getFrame src with
+      | none => failL "W" "unknown source"
+      | some sf => ({ s with wr := some { wp with src := sf } }, [])
+  | some "WO" =>
+    match s.wr with
+    | none => failL "WO" "WO without W"
+    | some wp =>
+      let op := if wp.kind == "csv" then "tocsv" else "tojson"
+      match toks[1]? with
+      | some "P" => ({ s with wr := none }, [{ cls := "SPEC-MISMATCH", op := op, kind := "panic", detail := "writer panicked" }])
+      | some "E" =>
+        let expectedErr := match wp.src with
+          | none => true
+          | some f => wp.kind == "csv" && (csvColumns f wp.cols).isNone
+        ({ s with wr := none }, [if expectedErr then { cls := "OK", op := op, kind := "", detail := "" }
+          else { cls := "SPEC-MISMATCH", op := op, kind := "errdiff", detail := "writer returned an error for a valid request" }])
+      | some t =>
+        match bytesTok t with
+        | .error e => failL "WO" e
+        | .ok out =>
+          match wp.src with
+          | none => ({ s with wr := none }, [{ cls := "SPEC-MISMATCH", op := op, kind := "errdiff", detail := "output written for a frame that carries an error" }])
+          | some f =>
+            let why : Option String :=
+              if wp.kind == "csv" then csvDenotes f wp.hdr wp.cols out
+              else if hasInf f then none     -- outside the property's quantifier (floats finite or NaN)
+              else jsonDenotes f out
+            let s' := { s with wr := some { wp with wrote := true } }
+            match why with
+            | none => (s', [{ cls := "OK", op := op, kind := "", detail := "" }])
+            | some w => (s', [{ cls := "SPEC-MISMATCH", op := op, kind := "value", detail := s!"{w}: frame {showFrame f} written as {repr (bytesToString out)}" }])
+      | none => failL "WO" "bad WO line"
+  | some "WF" =>
+    match runP (do
+        let _src ← nat
+        let kind ← next
+        let total ← nat
+        let k ← nat
+        let res ← next
+        let acc ← nat
+        return (kind, total, k, res, acc)) toks 1 with
+    | .error e => failL "WF" e
+    | .ok (kind, total, k, res, acc) =>
+      if res == "P" then (s, [{ cls := "SPEC-MISMATCH", op := "wfault", kind := "panic", detail := s!"To{kind} panicked when the writer failed at byte {k}" }])
+      else if acc < total && res != "1" then
+        (s, [{ cls := "SPEC-MISMATCH", op := "wfault", kind := "swallowed", detail := s!"To{kind}: the writer accepted only {acc} of {total} bytes (failing from byte {k}) but success was reported" }])
+      else (s, [{ cls := "OK", op := "wfault", kind := "", detail := "" }])
   | some "CB" =>
     match runP (do
         let _fid ← nat
